@@ -17,7 +17,10 @@ LEVEL_TEXT = ("Theorems in coq/Props/C11.v about the executable heap model coq/H
               "any interleaving, any append growth policy), every node handed out and every accessor, the read returns the same "
               "before and after any continuation of the history (C11_stable), and twice in a row (C11_repeat) — for all accessors "
               "when streamBytes reads are position-independent (repaired tree), and for all accessors except AsBytes/AsLargeBytes "
-              "of a streamBytes node on the pinned tree (C11_stable_partial), where the full statement is refuted "
+              "of a streamBytes node on the pinned tree (C11_stable_partial), where the full statement is refuted; readers handed out "
+              "by AsLargeBytes (partial Read, Seek, several alive, interleaved): C11_reader_independent_partial (a cursor keeps its "
+              "source, the source keeps its content, a read yields content[own offset:]) — that no other call moves a reader's "
+              "offset (C11_reader_independent) is stated, not proved, and checked by the harness "
               "(C11_refuted_stream, C11_full_refuted_pinned). Proof: an ownership invariant preserved by every single write of "
               "every operation (so also across panics). The model is tied to /repo by running the extracted model on the "
               "histories (<= 40 calls, several builders sharing structure, misuse included) a Go harness ran against the real "
@@ -31,7 +34,8 @@ TRUSTED = ["node/basicnode, traversal/selector/matcher.go, datamodel.Copy, trave
            "Go runtime semantics of slices (in-place append when len < cap), maps, pointers, bytes.Reader, io.SectionReader, io.ReadAll as modelled in coq/Heap/GoMem.v; the append growth policy is a parameter the theorems quantify over"]
 RULE = ("histories from a stateful generator that tracks the builder contract (mostly Legal, ~1 in 6 with one misuse or caller write), "
         "over builders of every basicnode prototype, nested assemblers, AssignNode of earlier nodes (shortcut and copy paths), Reset and "
-        "reuse, Copy, lookups, subset matches, FocusedTransform, dag-cbor encode, walks, nodes from dag-cbor/dag-json decoders and a "
+        "reuse, Copy, lookups, subset matches, FocusedTransform, dag-cbor encode, walks, AsLargeBytes readers kept alive (partial reads, "
+        "seeks, interleaved with no re-dump in between), nodes from dag-cbor/dag-json decoders and a "
         "foreign node implementation; plus a fixed corpus of witnesses; distinct = distinct script; non-trivial = more than 3 calls")
 EXPLANATION = ("verdict per case: on a Legal history any node register whose re-dump differs from its first dump, or whose two dumps taken "
                "at one step differ, is a failure; class streambytes_second_read when the node contains a streamBytes and only bytes "
